@@ -4,11 +4,15 @@
 //!   scale.text <font 0..3|null> <baseline> <align> <lh kind> <lh value> <colours mask> x y <codepoints>
 //!   scale.image <bits> <order> w h x y sx sy sw sh tx ty tw th     image, sub-image, nested sub-image, pixel()
 //!   scale.reject <kind> ...                      out-of-range coordinates / indices are rejected without a panic
+//!   scale.adapter <root box> <stack> <job>       shapes / images / text / target calls drawn through clipped, cropped,
+//!                                                translated, colour-converted targets and stacks of them (m_scale_adapter.rs)
 //!
 //! Every call into the library happens with pre-built arguments, on non-allocating counting
 //! targets, with the allocation counter armed; the harness is compiled with overflow checks and
 //! debug assertions. Oracle: no panic (a panic is reported by main.rs with its site as class),
 //! 0 allocations, iteration budgets not exceeded (termination).
+#[path = "m_scale_adapter.rs"]
+mod adapter;
 #[path = "m_scale_chk.rs"]
 mod chk;
 use crate::common::*;
@@ -145,7 +149,9 @@ impl Module for M {
     fn rule(&self) -> &'static str {
         "display-scale domain (|coord| <= 1024, sizes <= 1024, stroke widths 0..=128, line heights <= 1024 px / 400 %), values biased to \
          {0,1,2,3,63,64,65,240,255,256,257,320,480,1000,1023,1024}; degenerate objects (zero sizes, coincident vertices, empty polylines, \
-         empty strings and images, null font); rejection ops with out-of-range coordinates / indices. Every op runs all constructors, queries \
+         empty strings and images, null font); rejection ops with out-of-range coordinates / indices; scale.adapter: representative shapes, images, text and target \
+         calls drawn through every adapter kind, every ordered pair of kinds and some 3-deep stacks (areas / offsets at display scale, partly or wholly outside, negative, empty) on \
+         320x240 / 1024x768 / 1024x1024 / off-origin / empty roots, then seeded random stacks x jobs. Every op runs all constructors, queries \
          and draw() under an armed allocation counter, overflow checks and debug assertions. Non-trivial: the op iterated at least one pixel or point; distinct = op text."
     }
 
@@ -249,6 +255,8 @@ impl Module for M {
             }
         }
         chk::generate(_pid, tier, rng, emit);
+        // adapter stacks at display scale (last, so that the ops above keep their seeds)
+        adapter::generate(tier, rng, emit);
     }
 
     fn execute(&self, op: &str, ctx: &mut Ctx) -> String {
@@ -257,6 +265,9 @@ impl Module for M {
         alloc_reset();
         if stream.starts_with("scale.chk.") {
             return chk::execute(op, ctx);
+        }
+        if stream == "scale.adapter" {
+            return adapter::execute(op, ctx);
         }
         match stream {
             "scale.shape" => {
